@@ -1106,6 +1106,7 @@ func TestReplay(t *testing.T) {
 		"lockscript": replayLockScript,
 		"inflight":   replayInflight,
 		"snaprace":   replaySnapRace,
+		"gcrace":     replayGCRace,
 		"workload": func(raw json.RawMessage) *kit.Failure {
 			var w Workload
 			if err := json.Unmarshal(raw, &w); err != nil {
